@@ -587,7 +587,7 @@ class C16(PropCheck):
             "coroutine / async generator probed from callees at depth 0-3, thread, greenlet, hidden outermost frames; "
             "non-trivial = some frame has a non-None origin or extract_outermost raises; distinct = distinct case")
     manifest = {
-        "text": "Lean: C16_better_origin_source (the type list and the condition of better_origin, re-read from the source on every run), C16_better_origin (a generator-like object being looked into always becomes the origin; anything else replaces only a fallback that is not generator-like; an object that cannot be weakly referenced never does) and C16_better_origin_slips (two slips seeded changes made there); the real better_origin is diffed with the model on every pair of kinds. C16_origin_is_owner (every emitted frame's origin, if any, is a generator-like object whose own frame is that frame — an invariant of the whole run), C16_outermost_head (extract_outermost's model returns exactly the head of extract's frames, with identical flags, and raises exactly when there are none: the recorded error alone, the group, or the no-frame RuntimeError), C16_origin_roundtrip (for a well-formed generator-like origin o whose unwrap starts with its own frame, extract_outermost(o) returns that frame). Tie: model vs real extract / extract_outermost on generated environments; oracle on real chains and running targets.",
+        "text": "Lean: C16_origin_reset (a frame keeps the origin it was reached with exactly when it is that origin's own frame), C16_origin_reset_by_code_witness / C16_origin_reset_by_code_agrees (comparing code objects instead differs exactly on recursive activations; tied by the running recursive generator / coroutine scenarios), C16_better_origin_source (the type list and the condition of better_origin, re-read from the source on every run), C16_better_origin (a generator-like object being looked into always becomes the origin; anything else replaces only a fallback that is not generator-like; an object that cannot be weakly referenced never does) and C16_better_origin_slips (two slips seeded changes made there); the real better_origin is diffed with the model on every pair of kinds. C16_origin_is_owner (every emitted frame's origin, if any, is a generator-like object whose own frame is that frame — an invariant of the whole run), C16_outermost_head (extract_outermost's model returns exactly the head of extract's frames, with identical flags, and raises exactly when there are none: the recorded error alone, the group, or the no-frame RuntimeError), C16_origin_roundtrip (for a well-formed generator-like origin o whose unwrap starts with its own frame, extract_outermost(o) returns that frame). Tie: model vs real extract / extract_outermost on generated environments; oracle on real chains and running targets.",
         "note": "Frames obtained through a running generator's StackSlice are real interpreter state: leg B is judged by the oracle on the implementation, the model covers suspended (static) environments. weakref-ability and identity are modelled as env tables.",
     }
     assumptions = ["generator-like objects unwrap to (own frame, delegate) as the built-in glue does for suspended ones"]
